@@ -348,7 +348,7 @@ pub fn run(ctx: &mut Ctx) {
         "open reports are partially filled (an 'open' report with nothing left to fill ends tracking, see C01)".into(),
     ];
     ctx.run_regressions::<MaxTimestampWins>();
-    ctx.run::<MaxTimestampWins>(ctx.tier.pick(5_000, 150_000));
+    ctx.run::<MaxTimestampWins>(ctx.tier.pick(100_000, 1_500_000));
 }
 
 pub fn replay(ctx: &mut Ctx, doc: &Value) -> bool {
